@@ -194,13 +194,14 @@ def site_role(pg, mm, nat):
 def families(args):
     _TIER[0] = args.tier
     shapes = []
-    kmax = 4 if args.tier == 'quick' else 7
     for minlen in (1, 0):
+        # segments that may be empty (min0) double the branching of every push: 5 of them in thorough, 7 non-empty ones
+        kmax = 4 if args.tier == 'quick' else (7 if minlen else 5)
         for k in range(1, kmax + 1):
             shapes.append(MapShape('push%d/min%d' % (k, minlen), k, 0, 0, minlen))
         mk = 2 if args.tier == 'quick' else 3
         for kb, ki, ka in itertools.product(range(0, mk + 1), range(1, mk + 1), range(0, mk + 1)):
-            if kb + ki + ka <= (4 if args.tier == 'quick' else 7):
+            if kb + ki + ka <= kmax:
                 shapes.append(MapShape('merge%d-%d-%d/min%d' % (kb, ki, ka, minlen), kb, ki, ka, minlen))
     # many non-empty segments: the map grows past one B-tree node (std CAPACITY = 11), internal-node search
     for k in ((9, 12, 14) if args.tier == 'quick' else (9, 12, 14, 18, 24, 30)):
@@ -223,7 +224,7 @@ def main():
                       rule='mapcore: one case per op-sequence shape (k pushes / pushes+merge+pushes), all lengths 0..3 (and the >=1 sub-family), source offsets, '
                            'presence of an origin and the probe position symbolic, executed on the real push/merge/origin/Range MIR; sites: one case per text of the '
                            'emission-site family with define table and strip_comments symbolic; distinct_nontrivial = (case, feasible path) pairs of cases with >1 path',
-                      bounds={'tier': args.tier, 'mapcore': 'segments <= 4 quick / 7 thorough with len 0..3; up to 14 quick / 30 thorough segments with len 1..3 (internal B-tree nodes); one merge level', 'sites': 'text family lib/ppfamily.site_programs'},
+                      bounds={'tier': args.tier, 'mapcore': 'segments <= 4 quick / 5 thorough with len 0..3, <= 7 thorough with len 1..3; up to 14 quick / 30 thorough segments with len 1..3 (internal B-tree nodes); one merge level', 'sites': 'text family lib/ppfamily.site_programs'},
                       outside=['more segments than the bound in the symbolic map-core query (larger maps occur only through the concrete site texts)',
                                'more than one merge level in the map-core query', 'SyntaxTree::get_origin (one-line wrapper, covered by C20/C14 harness of sv-parser crate)'],
                       assumptions=ppprop.STD_ASSUMPTIONS,
